@@ -26,7 +26,7 @@ def product_configs(expl, tier, models=('scalar', 'multi'), wide=False):
         imputers = ['joint', 'product', 'default']
         names = ['str', 'int', 'float']
     else:
-        alphas = [F(1, 2)]
+        alphas = [F(1, 4)]
         ninner = [1, 2]
         storages = ['Batch', 'Uniform', 'Geometric']
         imputers = ['joint', 'product', 'default']
